@@ -526,6 +526,10 @@ func (d *DefaultServerDispatcher) messagePump(stoppedC chan struct{}, timerC cha
 
 	// Dispatcher Loop
 	for {
+		// What the previous iteration found out about another client must not leak into this one:
+		// the timeout case below sets neither of the two
+		rdy = false
+		clientQueue = nil
 		select {
 		case <-stoppedC:
 			// server was stopped
